@@ -735,6 +735,8 @@ class Interp:
                 if k_ == 'NAN': return NAN
                 if k_ == 'EPSILON': return z3.RealVal(2) ** (-52 if t_ == 'f64' else -23)
                 if k_ == 'MIN_POSITIVE': return z3.RealVal(2) ** (-1022 if t_ == 'f64' else -126)
+        if re.search(r'Duration::(ZERO|MAX|SECOND|MILLISECOND)$', c):
+            return Duration({'ZERO': 0, 'MAX': (2 ** 64 - 1) * 10 ** 9 + 999999999, 'SECOND': 10 ** 9, 'MILLISECOND': 10 ** 6}[c.rsplit('::', 1)[1]])
         if c.endswith('std::time::UNIX_EPOCH') or c.endswith('time::UNIX_EPOCH'): return Opaque('unix_epoch')
         m = re.match(r'^\{(alloc\d+): (.*)\}$', c)
         if m:
